@@ -51,12 +51,19 @@
       tryRemoveBackup walks it);
     - [parents_original Vb B0 w p]: if [p] is tracked as "did not exist" and
       exists now, its parent directories existed when the transaction began.
-      Necessary: [C17_needs_parents_original] below;
-    - [backup_parents_resolved Vb Vk w p]: if [p] is tracked as "did not
-      exist" and does not exist now, no proper ancestor of [p] is a symlink in
-      the *backup* view (follows from the invariant when the parents of [p]
-      are directories in the base: [backup_parents_resolved_direct]).
-      Necessary: [C17_refuted_symlinked_backup_parent] below.
+      Necessary (recorded finding D22, not repaired):
+      [C17_needs_parents_original] below.
+
+    Repaired finding D21 (found while proving this property as "F2"; /repo
+    commit a328feb): tryRemoveBackup used to Lstat a path recorded as "did
+    not exist" on the backup filesystem; through the backed-up copy of a
+    symlink among the parents of [p] that call could reach - and the
+    following Remove delete - the backup copy of *another* path, which
+    Rollback then silently did not restore.  The theorems needed a fourth
+    side condition (no proper ancestor of [p] is a symlink in the backup
+    view).  Since the repair tryRemoveBackup only drops the bookkeeping entry
+    of such a path, the side condition is gone, and the former counterexample
+    is the regression example [C17_fixed_symlinked_backup_parent] below.
 
     Not proved: ForceBackup of a path that is or was a directory (the Walk
     branch of tryRemoveBackup); names that still have to be resolved through
@@ -87,7 +94,7 @@ Theorem C17_rollback_after_force_backup :
   forall (w : world) (p : str),
   Inv Vb Vk B0 w -> snolinkpar (Vb w) p -> p <> s_root ->
   entry_ok tnb tnk accb acck p (Vb w !! p) -> orig_not_dir_cond w p ->
-  parents_original Vb B0 w p -> backup_parents_resolved Vb Vk w p ->
+  parents_original Vb B0 w p ->
   forall (r : mres unit) (w1 : world) (ops : list op) (w2 : world),
     b_force_backup base backup p w = (r, w1) -> good_run base backup Vb w1 ops w2 ->
     exists w3, b_rollback base backup w2 = (MOk tt, w3) /\
@@ -114,41 +121,41 @@ Theorem C17_untracked_is_try_backup :
 Proof. exact force_backup_untracked_spec. Qed.
 Print Assumptions C17_untracked_is_try_backup.
 
-(** * The side conditions are necessary: witnesses in the concrete model
-    (documented layering: base hides /bk, backup is PrefixFS(/bk)) *)
+(** * Witnesses in the concrete model (documented layering: base hides /bk,
+    backup is PrefixFS(/bk)) *)
 Open Scope N_scope.
 Definition c17_cfg : config := mkConfig None [[47;98;107]] [47;98;107].
 Definition c17_w0 : world := init_dir (init_dir init_world [47] 493 0 0 1) [47;98;107] 493 0 0 2.
 
-(** [backup_parents_resolved] dropped: the unrestricted property is false of
-    the faithful model.  Tree { /bk, /x/, /x/b = "hi" mode 0644, /l -> /x }.
-    Chmod(/x/b, 0600) backs /x/b up; Remove(/l) backs the link up (the
-    backup now holds /l -> /x); Create(/l/b) fails with ENOENT but records
-    /l/b as "did not exist".  ForceBackup(/l/b) returns nil: tryRemoveBackup
-    Lstats /l/b *on the backup*, which follows the backed-up link to the
-    backup copy of /x/b, finds a regular file and removes it - the backup
-    copy of another path.  Rollback returns nil and /x/b keeps mode 0600
-    (without the ForceBackup it gets 0644 back: second conjunct). *)
+(** Regression for the repaired finding D21.  Tree { /bk, /x/, /x/b = "hi"
+    mode 0644, /l -> /x }.  Chmod(/x/b, 0600) backs /x/b up; Remove(/l)
+    backs the link up (the backup now holds /l -> /x); Create(/l/b) fails
+    with ENOENT but records /l/b as "did not exist".  Before the repair
+    ForceBackup(/l/b) returned nil after removing the backup copy of /x/b
+    (reached by Lstat on the backup through the backed-up link), and
+    Rollback returned nil with /x/b still at mode 0600.  Now ForceBackup(/l/b)
+    returns nil, Rollback returns nil and /x/b is its initial node again -
+    exactly as without the ForceBackup (second conjunct). *)
 Definition c17_w1 : world :=
   init_link (init_file (init_dir c17_w0 [47;120] 493 0 0 3) [47;120;47;98] 420 0 0 4 [104;105])
             [47;108] 0 0 6 [47;120].
 Definition c17_ops1 : list op :=
   [OChmod [47;120;47;98] 384; ORemove [47;108]; OCreate [47;108;47;98] [120]].
-Example C17_refuted_symlinked_backup_parent :
+Example C17_fixed_symlinked_backup_parent :
   (let '(rs, w') := run_history c17_cfg (c17_ops1 ++ [OForceBackup [47;108;47;98]; ORollback]) c17_w1 in
    nth 3 rs MHalt = MOk ObUnit /\ nth 4 rs MHalt = MOk ObUnit /\
-   st_fs (w_st w') !! [[120]; [98]] <> st_fs (w_st c17_w1) !! [[120]; [98]]) /\
+   st_fs (w_st w') !! [[120]; [98]] = st_fs (w_st c17_w1) !! [[120]; [98]]) /\
   (let '(rs, w') := run_history c17_cfg (c17_ops1 ++ [ORollback]) c17_w1 in
    nth 3 rs MHalt = MOk ObUnit /\
    st_fs (w_st w') !! [[120]; [98]] = st_fs (w_st c17_w1) !! [[120]; [98]]).
 Proof.
   vm_compute. split.
-  - split; [reflexivity | split; [reflexivity | intro H; inversion H]].
+  - split; [reflexivity | split; reflexivity].
   - split; reflexivity.
 Qed.
 
-(** [parents_original] dropped: Mkdir(/a); Create(/a/f).  ForceBackup(/a/f)
-    drops the entry "did not exist" of /a/f, then cannot create the copy (the
+(** [parents_original] is necessary (recorded finding D22): Mkdir(/a);
+    Create(/a/f).  ForceBackup(/a/f) drops the entry "did not exist" of /a/f, then cannot create the copy (the
     new directory /a is not in the backup) and fails, leaving /a/f untracked.
     The premise of the property ("succeeds") is false here, but the failed
     call breaks the transaction: Rollback fails to remove /a (not empty) and
